@@ -219,6 +219,28 @@ def match(kind, ms, line, n):
     return {"ans": True, "token": token_json(t), "matcher": mstate_json(m)}
 
 
+def match_md(kind, ms, seen, line, n):
+    from gherkin.token_matcher_markdown import GherkinInMarkdownTokenMatcher
+    m = GherkinInMarkdownTokenMatcher(ms["default"])
+    if ms["dialect"] != ms["default"]:
+        m._change_dialect(ms["dialect"])
+    m.matched_feature_line = seen
+    t = Token(GherkinLine(line, n), {"line": n})
+    try:
+        ans = getattr(m, "match_" + kind)(t)
+    except ParserException as e:
+        return {"raise": err_json(e)}
+    except Exception as e:  # noqa
+        return foreign(e)
+    out = {"ans": bool(ans), "seen": bool(getattr(m, "matched_feature_line", False))}
+    out["token"] = token_json(t) if hasattr(t, "matched_type") else token_json_raw(t)
+    return out
+
+
+def token_json_raw(t):
+    return {"location": dict(t.location), "indent": 0, "items": [], "dialect": ""}
+
+
 def interpolate(name, hs, vs):
     """placeholder substitution through the public API: the name of the pickle of a one-row outline"""
     loc = {"line": 1, "column": 1}
@@ -238,7 +260,7 @@ def interpolate(name, hs, vs):
 
 FUNCS = {"parse": parse, "parse_history": parse_history, "compile": compile_doc, "events": events,
          "tokens": tokens, "table_cells": table_cells, "tags": tags, "match": match,
-         "interpolate": interpolate}
+         "interpolate": interpolate, "match_md": match_md}
 
 
 def run_impl(fname, args):
